@@ -174,7 +174,8 @@ type node struct {
 	lastPrepared  uint32 // highest epoch whose Prepare this node holds (computed or loaded)
 	lastAction    uint32
 	computedEpoch uint32 // epoch computed by EpochStartPrepare in the current incarnation (0 = none)
-	prepCount     int    // number of Prepare deliveries of the epoch in flight in this incarnation
+	prepCount     int    // number of Prepare deliveries of the current candidate in this incarnation
+	preparedCand  int    // epoch-start candidate of the epoch in flight this node holds (-1 = an abandoned one)
 	keyNow        []byte // saved-state key as a block commit after the last delivery would record it
 	keyBeforePrep []byte // key recorded by the last commit before the most recent Prepare
 	putFailed     map[string]bool
